@@ -4,56 +4,219 @@ package registration
 
 import (
 	"context"
+	"crypto/hmac"
+	"crypto/sha256"
 	"time"
 
 	"github.com/hashicorp/nodeenrollment"
 	"github.com/hashicorp/nodeenrollment/types"
 	"github.com/hashicorp/nodeenrollment/zzverif/vf"
 	"github.com/hashicorp/nodeenrollment/zzverif/vfs"
+	"github.com/mr-tron/base58"
+	"google.golang.org/protobuf/proto"
+	"google.golang.org/protobuf/types/known/timestamppb"
 )
 
-func init() { VfHarnesses["VerifC06SingleUse"] = VerifC06SingleUse }
+func init() {
+	VfHarnesses["VerifC06SingleUse"] = VerifC06SingleUse
+	VfHarnesses["VerifC06ExistingKey"] = VerifC06ExistingKey
+	VfHarnesses["VerifC06Tamper"] = VerifC06Tamper
+}
 
-// C06: a token created by the real CreateServerLedActivationToken enrolls at most one node, only
-// while younger than the configured maximum lifetime; the honest node side (NewNodeCredentials,
-// CreateFetchNodeCredentialsRequest) is the library's own code as well.
+// vfStorageOpts: the server runs with or without a storage wrapper (symbolic configuration).
+func vfStorageOpts(withWrapper bool) []nodeenrollment.Option {
+	if withWrapper {
+		return []nodeenrollment.Option{nodeenrollment.WithStorageWrapper(vfAeadWrapper("storage", 5))}
+	}
+	return nil
+}
+
+// C06 (single use, expiry): a token created by the real CreateServerLedActivationToken enrolls at most one node,
+// only while younger than the configured maximum lifetime; the second presentation - by the same node or by
+// another one - never enrolls. The honest node side is the library's own code as well.
 func VerifC06SingleUse() {
 	ctx := context.Background()
 	st := &vfs.Storage{}
 	t0 := vf.Now()
-	vfs.StoreRoots(ctx, st, t0)
-	_, token, err := CreateServerLedActivationToken(ctx, st, &types.ServerLedRegistrationRequest{})
+	opts := vfStorageOpts(vf.Bool("storage-wrapper"))
+	vfs.StoreRoots(ctx, st, t0, opts...)
+	_, token, err := CreateServerLedActivationToken(ctx, st, &types.ServerLedRegistrationRequest{}, opts...)
 	vf.Assert("token-created", err == nil)
-	created := vf.ClockReading(1)
+	if err != nil {
+		return
+	}
+	created := vf.Now() // just after the creation instant
 	maxLife := vf.Dur("max-lifetime", -1000000000000000, 1000000000000000)
+	fopts := append(append([]nodeenrollment.Option{}, opts...), nodeenrollment.WithMaximumServerLedActivationTokenLifetime(maxLife))
 
-	fetch := func() bool {
-		nodeSt := &vfs.Storage{}
-		creds, err := types.NewNodeCredentials(ctx, nodeSt, nodeenrollment.WithActivationToken(token))
+	newNode := func() *types.NodeCredentials {
+		creds, err := types.NewNodeCredentials(ctx, &vfs.Storage{}, nodeenrollment.WithActivationToken(token))
 		if err != nil {
 			panic(err)
 		}
+		return creds
+	}
+	fetch := func(creds *types.NodeCredentials) bool {
 		req, err := creds.CreateFetchNodeCredentialsRequest(ctx, nodeenrollment.WithActivationToken(token))
 		if err != nil {
 			panic(err)
 		}
-		resp, err := FetchNodeCredentials(ctx, st, req, nodeenrollment.WithMaximumServerLedActivationTokenLifetime(maxLife))
-		return err == nil && resp != nil && len(resp.EncryptedNodeCredentials) > 0
+		resp, err := FetchNodeCredentials(ctx, st, req, fopts...)
+		return vfIssued(resp, err)
 	}
-	first := fetch()
-	usedAt := vf.Now()
+	nodeA := newNode()
+	tFirst := vf.Now()
+	first := fetch(nodeA)
 	recordsAfterFirst := st.Count(vfs.KindNode)
-	second := fetch()
+	second := false
+	if vf.Bool("second-use-by-the-same-node") {
+		second = fetch(nodeA)
+	} else {
+		second = fetch(newNode())
+	}
 	vf.Assume(vf.TimeLE(vf.Now(), t0.Add(time.Second)))
 	if first {
 		vf.Reach("first-use-enrolled")
-		vf.Assert("enrolled-only-while-unexpired", vf.TimeLE(usedAt.Add(-maxLife).Add(-time.Second), created))
+		vf.Assert("enrolled-only-while-unexpired", vf.TimeLE(tFirst, created.Add(maxLife)))
 		vf.Assert("exactly-one-record", recordsAfterFirst == 1)
 	} else {
 		vf.Reach("first-use-refused")
 		vf.Assert("refused-use-creates-no-record", recordsAfterFirst == 0)
+		vf.Assert("fresh-token-is-honoured", vf.Not(vf.TimeLE(t0.Add(time.Second), t0.Add(maxLife))))
 	}
 	vf.Assert("second-use-never-enrolls", !second)
 	vf.Assert("second-use-creates-no-record", st.Count(vfs.KindNode) == recordsAfterFirst)
 	vf.Assert("token-record-gone-after-use", vf.Implies(first, st.Count(vfs.KindToken) == 0))
+}
+
+// vfToken stores a token record as the library would have, for the token (nonce, hmacKey), created at `created`.
+func vfToken(ctx context.Context, st nodeenrollment.Storage, nonce, hmacKey []byte, created time.Time, opts []nodeenrollment.Option) (id string, presented []byte) {
+	id = base58.FastBase58Encoding(hmac.New(sha256.New, hmacKey).Sum(nonce))
+	if err := (&types.ServerLedActivationToken{Id: id, CreationTime: timestamppb.New(created)}).Store(ctx, st, opts...); err != nil {
+		panic(err)
+	}
+	presented, err := proto.Marshal(&types.ServerLedActivationTokenNonce{Nonce: nonce, HmacKeyBytes: hmacKey})
+	if err != nil {
+		panic(err)
+	}
+	return id, presented
+}
+
+// C06 (no enrollment over an existing record): an unused, unexpired token presented with a key that already has
+// a node record fails and leaves that record exactly as it was - with and without a storage wrapper.
+func VerifC06ExistingKey() {
+	ctx := context.Background()
+	st := &vfs.Storage{}
+	t0 := vf.Now()
+	opts := vfStorageOpts(vf.Bool("storage-wrapper"))
+	vfs.StoreRoots(ctx, st, t0, opts...)
+	nonce, hkey := vf.Bytes("token-nonce", 32), vf.Bytes("token-hmac-key", 32)
+	vf.Assume(vf.And(len(nonce) == 32, len(hkey) == 32))
+	tokenId, presented := vfToken(ctx, st, nonce, hkey, t0.Add(-time.Minute), opts)
+	// the key's existing record, stored by the library's own Store with the same options
+	key := 2
+	existing := vf.Bool("key-already-has-record")
+	keyId, _ := nodeenrollment.KeyIdFromPkix(vf.Pkix(key))
+	if existing {
+		rec := &types.NodeInformation{Id: keyId, CertificatePublicKeyPkix: vf.Pkix(key), CertificatePublicKeyType: types.KEYTYPE_ED25519,
+			EncryptionPublicKeyBytes: vf.X25519Pub(0), EncryptionPublicKeyType: types.KEYTYPE_X25519, RegistrationNonce: vf.Bytes("old-nonce", 32),
+			ServerEncryptionPrivateKeyBytes: vf.X25519Priv(9), ServerEncryptionPrivateKeyType: types.KEYTYPE_X25519}
+		if err := rec.Store(ctx, st, opts...); err != nil {
+			panic(err)
+		}
+	}
+	snap := st.Snapshot()
+	req := vfSignedRequest(t0, key, presented, vf.X25519Pub(1), nil)
+	resp, err := FetchNodeCredentials(ctx, st, req, opts...)
+	vf.Assume(vf.TimeLE(vf.Now(), t0.Add(time.Second)))
+	if vfIssued(resp, err) {
+		vf.Reach("enrolled")
+		vf.Assert("never-enrolls-a-key-that-already-has-a-record", !existing)
+		vf.Assert("token-consumed", !st.Has(vfs.KindToken, tokenId))
+	} else {
+		vf.Reach("refused")
+		vf.Assert("fresh-token-for-a-new-key-is-honoured", existing)
+		vf.Assert("existing-record-unchanged", st.KindSameAs(vfs.KindNode, snap))
+	}
+}
+
+// C06 (sealed creation time): two stored tokens A and B with arbitrary creation instants. The adversary may edit
+// A's stored record before A is presented. With a storage wrapper, A enrolls only if A's own sealed creation
+// time is within the maximum lifetime, and values sealed for B never open for A.
+func VerifC06Tamper() {
+	ctx := context.Background()
+	st := &vfs.Storage{}
+	t0 := vf.Now()
+	wrapped := vf.Bool("storage-wrapper")
+	opts := vfStorageOpts(wrapped)
+	vfs.StoreRoots(ctx, st, t0, opts...)
+	createdA, createdB := vf.TimeFromNow("created-A", t0), vf.TimeFromNow("created-B", t0)
+	vf.Assume(vf.And(vf.TimeLE(createdA, t0), vf.TimeLE(createdB, t0)))
+	nA, hA := vf.Bytes("A-nonce", 32), vf.Bytes("A-hmac-key", 32)
+	nB, hB := vf.Bytes("B-nonce", 32), vf.Bytes("B-hmac-key", 32)
+	vf.Assume(vf.And(vf.And(len(nA) == 32, len(hA) == 32), vf.And(len(nB) == 32, len(hB) == 32)))
+	vf.Assume(vf.Not(vf.And(vf.EqBytes(nA, nB), vf.EqBytes(hA, hB))))
+	idA, presentedA := vfToken(ctx, st, nA, hA, createdA, opts)
+	idB, _ := vfToken(ctx, st, nB, hB, createdB, opts)
+	vf.Assert("token-ids-differ", idA != idB)
+	// what is persisted for A is not enough to rebuild the token: the HMAC key is never stored
+	storedA := new(types.ServerLedActivationToken)
+	if err := proto.Unmarshal(st.Get(vfs.KindToken, idA), storedA); err != nil {
+		panic(err)
+	}
+	vf.Assert("hmac-key-never-persisted", vf.SecretFree(storedA, hA))
+	storedB := new(types.ServerLedActivationToken)
+	if err := proto.Unmarshal(st.Get(vfs.KindToken, idB), storedB); err != nil {
+		panic(err)
+	}
+	tamper := vf.Int("tamper", 0, 4)
+	switch tamper {
+	case 1: // B's sealed creation time moved into A's record
+		storedA.CreationTimeMarshaled = storedB.CreationTimeMarshaled
+	case 2: // B's whole record (id field and all) filed under A's storage key
+		storedA = storedB
+	case 3: // a clear-text creation time written next to the sealed one
+		storedA.CreationTime = timestamppb.New(t0)
+	case 4: // the creation time re-sealed by someone who does not hold the storage wrapper
+		fresh, err := proto.Marshal(timestamppb.New(t0))
+		if err != nil {
+			panic(err)
+		}
+		blob, err := vfAeadWrapper("storage", 6).Encrypt(ctx, fresh)
+		if err != nil {
+			panic(err)
+		}
+		if storedA.CreationTimeMarshaled, err = proto.Marshal(blob); err != nil {
+			panic(err)
+		}
+	}
+	if tamper != 0 {
+		b, err := proto.Marshal(storedA)
+		if err != nil {
+			panic(err)
+		}
+		st.Tamper(vfs.KindToken, idA, b)
+	}
+	maxLife := vf.Dur("max-lifetime", 0, 1000000000000000)
+	req := vfSignedRequest(t0, 2, presentedA, vf.X25519Pub(1), nil)
+	fopts := append(append([]nodeenrollment.Option{}, opts...), nodeenrollment.WithMaximumServerLedActivationTokenLifetime(maxLife))
+	tStart := vf.Now()
+	resp, err := FetchNodeCredentials(ctx, st, req, fopts...)
+	tEnd := vf.Now()
+	vf.Assume(vf.TimeLE(tEnd, t0.Add(time.Second)))
+	if vfIssued(resp, err) {
+		vf.Reach("enrolled")
+		if wrapped {
+			vf.Assert("sealed-expiry-governs", vf.TimeLE(tStart, createdA.Add(maxLife)))
+			vf.Assert("sealed-values-do-not-move-between-tokens", vf.And(tamper != 1, vf.And(tamper != 2, tamper != 4)))
+		} else if tamper == 0 {
+			vf.Assert("expiry-governs", vf.TimeLE(tStart, createdA.Add(maxLife)))
+		}
+	} else {
+		vf.Reach("refused")
+		if tamper == 0 || (wrapped && tamper == 3) {
+			vf.Assert("unexpired-token-is-honoured", vf.Not(vf.TimeLE(tEnd, createdA.Add(maxLife))))
+		}
+		vf.Assert("refusal-creates-no-record", st.Count(vfs.KindNode) == 0)
+	}
 }
